@@ -23,17 +23,35 @@ Definition fl_close_rel (mag m : Q) (o : fl) : bool := match o with Fin q => clo
 Definition list_close_rel mag (m : list Q) (o : list fl) : bool := all2 (fl_close_rel mag) m o.
 Definition vec_close_rel mag (m : vec3 Q) (o : list fl) : bool := list_close_rel mag (vlist m) o.
 Definition vecs_close_rel mag (m : list (vec3 Q)) (o : list (list fl)) : bool := all2 (vec_close_rel mag) m o.
-Definition col_agree (mag : Q) (m : mcol) (o : ocol) : bool :=
+(* FEATURE-relative comparison: a scene may sit far from the origin (coordinates 2^31 + k/8). Points are compared
+   after subtracting a reference input point, with a tolerance relative to the spread of the inputs around it, so
+   that an error of the size of the scene is seen however large the coordinates are. fr = (spread, reference). *)
+Definition spread_of (vs : list (vec3 Q)) : Q * vec3 Q :=
+  match vs with
+  | [] => (0, V3 0 0 0)
+  | r :: _ => (mag_of (map (fun v => vsub QOps v r) vs), r)
+  end.
+Definition fl_shift (r : Q) (o : fl) : fl := match o with Fin q => Fin (q - r) | x => x end.
+Definition vec_close_feat (fr : Q * vec3 Q) (m : vec3 Q) (o : list fl) : bool :=
+  match o with
+  | [a; b; c] =>
+      fl_close_rel (fst fr) (vx m - vx (snd fr)) (fl_shift (vx (snd fr)) a) &&
+      fl_close_rel (fst fr) (vy m - vy (snd fr)) (fl_shift (vy (snd fr)) b) &&
+      fl_close_rel (fst fr) (vz m - vz (snd fr)) (fl_shift (vz (snd fr)) c)
+  | _ => false
+  end.
+Definition vecs_close_feat fr (m : list (vec3 Q)) (o : list (list fl)) : bool := all2 (vec_close_feat fr) m o.
+Definition col_agree (mag : Q * vec3 Q) (m : mcol) (o : ocol) : bool :=
   match m, o with
-  | MV a, OV b => vecs_close_rel mag a b
+  | MV a, OV b => vecs_close_feat mag a b
   | MI a, OI b => nat_list_eqb a b
-  | MF a, OF b => list_close_rel mag a b
+  | MF a, OF b => list_close_rel (fst mag) a b
   | MT a, OF b => list_close a b
   | _, _ => false
   end.
-Definition near_agree (mag : Q) (m : nearest_out Q) (o : onear) : bool :=
+Definition near_agree (mag : Q * vec3 Q) (m : nearest_out Q) (o : onear) : bool :=
   match m, o with
-  | NBare p, OBare q => vecs_close_rel mag p q
+  | NBare p, OBare q => vecs_close_feat mag p q
   | NTuple p i d t, OTuple cols =>
       all2 (col_agree mag) (MV p :: opt_col MI i ++ opt_col MF d ++ opt_col MT t) cols
   | _, _ => false
@@ -45,17 +63,17 @@ Fixpoint masked2 {A B} (f : A -> B -> bool) (mask : list bool) (l : list A) (l' 
   | d :: mask', x :: r, y :: r' => (negb d || f x y) && masked2 f mask' r r'
   | _, _, _ => false
   end.
-Definition col_agree_m (mag : Q) (mask : list bool) (m : mcol) (o : ocol) : bool :=
+Definition col_agree_m (mag : Q * vec3 Q) (mask : list bool) (m : mcol) (o : ocol) : bool :=
   match m, o with
-  | MV a, OV b => masked2 (vec_close_rel mag) mask a b
+  | MV a, OV b => masked2 (vec_close_feat mag) mask a b
   | MI a, OI b => masked2 Nat.eqb mask a b
-  | MF a, OF b => masked2 (fl_close_rel mag) mask a b
+  | MF a, OF b => masked2 (fl_close_rel (fst mag)) mask a b
   | MT a, OF b => masked2 fl_close mask a b
   | _, _ => false
   end.
-Definition near_agree_m (mag : Q) (mask : list bool) (m : nearest_out Q) (o : onear) : bool :=
+Definition near_agree_m (mag : Q * vec3 Q) (mask : list bool) (m : nearest_out Q) (o : onear) : bool :=
   match m, o with
-  | NBare p, OBare q => masked2 (vec_close_rel mag) mask p q
+  | NBare p, OBare q => masked2 (vec_close_feat mag) mask p q
   | NTuple p i d t, OTuple cols =>
       all2 (col_agree_m mag mask) (MV p :: opt_col MI i ++ opt_col MF d ++ opt_col MT t) cols
   | _, _ => false
@@ -101,8 +119,8 @@ Inductive case :=
 (* aligned_along_subsegment: vertices and closedness of the result *)
 | CAligned (pl : polyline Q) (a b : vec3 Q) (obs : result (list (list fl) * bool)).
 
-Definition pl_agree (mag : Q) (m : polyline Q) (o : list (list fl) * bool) : bool :=
-  vecs_close_rel mag (pv m) (fst o) && Bool.eqb (pclosed m) (snd o).
+Definition pl_agree (mag : Q * vec3 Q) (m : polyline Q) (o : list (list fl) * bool) : bool :=
+  vecs_close_feat mag (pv m) (fst o) && Bool.eqb (pclosed m) (snd o).
 
 (* decision of is_point_on_line_segment is compared only away from the threshold unless arithmetic is exact *)
 Definition on_decided (exact : bool) (p a v : vec3 Q) (eps : Q) : bool :=
@@ -120,16 +138,16 @@ Fixpoint on_agree (exact : bool) (ps sa sv : list (vec3 Q)) (eps : Q) (on : list
 Definition check_case (c : case) : bool :=
   match c with
   | CNearest pl ps ri rd rt obs full =>
-      let mag := mag_of (pv pl ++ ps) in
-      let decs := map (decided_query mag pl) ps in      (* per query: undecided rows are skipped, the others compared *)
+      let mag := spread_of (pv pl ++ ps) in
+      let decs := map (decided_query (fst mag) pl) ps in      (* per query: undecided rows are skipped, the others compared *)
       let m := nearest QOps pl ps ri rd rt in
       let mf := nearest QOps pl ps true true true in
       res_agree near_shape m obs && res_agree near_shape mf full &&
       res_agree (near_agree_m mag decs) m obs && res_agree (near_agree_m mag decs) mf full
   | CClosest exact ps sa sv eps pts ts on =>
-      vecs_close_rel (mag_of (ps ++ sa ++ sv)) (closest_points_pairs QOps ps sa sv) pts &&
+      vecs_close_feat (spread_of (sa ++ ps ++ map2 (vadd QOps) sa sv)) (closest_points_pairs QOps ps sa sv) pts &&
       list_close (closest_ts_pairs QOps ps sa sv) ts &&
       on_agree exact ps sa sv eps on
-  | CSliced pl a b obs => res_agree (pl_agree (mag_of (a :: b :: pv pl))) (sliced_at_points QOps pl a b) obs
-  | CAligned pl a b obs => res_agree (pl_agree (mag_of (a :: b :: pv pl))) (aligned_along_subsegment QOps pl a b) obs
+  | CSliced pl a b obs => res_agree (pl_agree (spread_of (pv pl ++ [a; b]))) (sliced_at_points QOps pl a b) obs
+  | CAligned pl a b obs => res_agree (pl_agree (spread_of (pv pl ++ [a; b]))) (aligned_along_subsegment QOps pl a b) obs
   end.
